@@ -85,7 +85,9 @@ func (self *Interpreter) callFunc(span errors.Span, val value.Value, args []ast.
 			if i != nil {
 				return nil, i
 			}
-			callScope[arg.Name] = argVal
+			// Arguments are passed by value: the parameter must not share its cell with a variable of the caller
+			argCopy := *argVal
+			callScope[arg.Name] = &argCopy
 		}
 
 		// The body runs in the module that created the closure
